@@ -34,7 +34,9 @@ EPS = 1e-9
 CONFIGS = K.CONFIGS
 SCHEMES = D.SCHEMES_ALL + K.NEAR_THRESHOLD[:2]
 
-RULE = ("one case = (dataset, naming, k schemes); 7 starter configurations x return_at_most_one_ranking in "
+RULE = ("large universes: 5 (quick) / 29 (thorough) datasets of 4 permutations of 1001..1500 elements that differ on a "
+        "7-element window only, unifying scheme, no starters: consensus no worse than every input; "
+        "otherwise one case = (dataset, naming, k schemes); 7 starter configurations x return_at_most_one_ranking in "
         "{False, True}. quick: all datasets of <= 2 rankings over R(3) x 2 rotating schemes, once with a rotating "
         "naming out of 6 and (every 2nd dataset) once more with permuted-int resp. string names; hand-written "
         "datasets (DESIGN 3/C09 probe); 600 seeded datasets 2<=n<=6, m<=5 x 3 rotating schemes out of %d + 1 random "
@@ -61,10 +63,81 @@ HAND = [
 ]
 
 
+def _large_cases(tier, seed):
+    """Large universes (beyond 1000 elements, where e.g. numpy's textual rendering of arrays is abbreviated): a few
+    permutations that are the identity except on a small window; judged by an O(n^2) numpy Kendall-tau scorer."""
+    rng = random.Random(seed * 7919 + 9)
+    hard = ([3, 4, 6, 7, 2, 1, 5], [5, 6, 1, 2, 3, 4, 7], [5, 6, 4, 2, 3, 1, 7])
+    # a window on which the local search started from the identity stays above the best input (found by search); whether
+    # it does depends on where the window sits, hence several positions
+    for n, lo in ([(1001, 100), (1001, 499), (1001, 900), (1200, 700)] if tier == "quick" else
+                  [(n_, lo_) for n_ in (1001, 1024, 1200, 1500) for lo_ in (100, 301, 499, 700, 900)]):
+        win = list(range(lo, lo + 7))
+        yield {"kind": "large", "n": n, "lo": lo, "orders": [list(win)] + [[win[i - 1] for i in o] for o in hard]}
+    for n in ([1200] if tier == "quick" else [1001, 1200, 1500]):
+        for rep in range(1 if tier == "quick" else 3):
+            lo = rng.randint(10, n - 20)
+            win = list(range(lo, lo + 7))
+            orders = [list(win)]
+            for _ in range(3):
+                w = list(win)
+                rng.shuffle(w)
+                orders.append(w)
+            yield {"kind": "large", "n": n, "lo": lo, "orders": orders}
+
+
+def check_large(case):
+    import numpy as np
+    from bounded import adapt as A
+    from corankco.algorithms.bioconsert.bioconsert import BioConsert
+    n, lo = case["n"], case["lo"]
+    perms = []
+    for o in case["orders"]:
+        p = list(range(n))
+        p[lo:lo + len(o)] = o
+        perms.append(p)
+    ds = A.mk_dataset([[[x] for x in p] for p in perms])
+    pos = []
+    for p in perms:
+        a = np.empty(n, dtype=np.int64)
+        a[np.array(p)] = np.arange(n)
+        pos.append(a)
+
+    def score(cand_pos):
+        """Kemeny score under the unifying scheme of a complete ranking with ties given by its bucket index per element"""
+        tot = 0.0
+        cb = np.sign(cand_pos[:, None] - cand_pos[None, :])
+        for a in pos:
+            rb = np.sign(a[:, None] - a[None, :])
+            tot += np.count_nonzero(np.triu(cb != rb, 1))       # inverted, or tied in one and not in the other: cost 1
+        return float(tot)
+    fails = []
+    cons = BioConsert().compute_consensus_rankings(ds, A.mk_scheme(D.unifying()), False)
+    inputs = [score(a) for a in pos]
+    for r in cons.consensus_rankings:
+        cp = np.empty(n, dtype=np.int64)
+        seen = 0
+        for k, b in enumerate(r):
+            for e in b:
+                cp[A.val(e)] = k
+                seen += 1
+        if seen != n:
+            fails.append({"clause": "C09.prop", "site": "BioConsert no starters",
+                          "detail": {"large": case, "problem": "consensus over %d of %d elements" % (seen, n)}})
+            break
+        sc = score(cp)
+        if sc > min(inputs) + EPS:
+            fails.append({"clause": "C09.prop", "site": "BioConsert no starters",
+                          "detail": {"large": case, "consensus_score": sc, "input_scores": inputs}})
+            break
+    return {"fails": fails, "key": "large|%s" % case, "evals": 1, "sample": case}
+
+
 def gen_cases(tier, seed):
     quick = tier == "quick"
     kinds = list(D.NAME_KINDS)
     ns = len(SCHEMES)
+    yield from _large_cases(tier, seed)
     for d, kind, scheme in HAND:
         yield {"rankings": d, "namekind": kind, "schemes": [scheme], "pivot": 0}
     idx = 0
@@ -273,4 +346,6 @@ def setup():
 
 
 def check_case(case):
+    if case.get("kind") == "large":
+        return K.guarded(check_large, case, ID, "BioConsert.compute_consensus_rankings does not return")
     return K.guarded(check_inner, case, ID, "BioConsert.compute_consensus_rankings does not return")
